@@ -72,6 +72,11 @@ class Type:
         if self.is_array:
             return False
         if self.is_numeric and isinstance(value, numbers.Number):
+            if isinstance(value, float) and \
+               (value != value or value in (float('inf'), float('-inf'))):
+                # infinities and NaN are not values of any BASIC type:
+                # an operation producing one has overflowed
+                return False
             if self._type == BuiltinType.INTEGER:
                 return -32768 <= value <= 32767
             elif self._type == BuiltinType.LONG:
